@@ -728,12 +728,18 @@ func (sc *Scope) call(x ECall) V {
 		if f == nil {
 			specFail("binding: unknown function %q", name.V)
 		}
-		idx, ok := x.Args[2].(EInt)
-		if !ok {
-			specFail("binding expects a constant index")
-		}
 		i := 0
-		fmt.Sscanf(idx.V, "%d", &i)
+		switch a := x.Args[2].(type) {
+		case EInt:
+			fmt.Sscanf(a.V, "%d", &i)
+		case EIdent:
+			i = vc.eng.freeVarIndex(f, vc.eng.spec.Contracts[name.V], w, a.Name)
+			if i < 0 {
+				specFail("binding: %s has no captured variable %s", name.V, a.Name)
+			}
+		default:
+			specFail("binding expects an index or a captured variable's name")
+		}
 		if i >= len(f.FreeVars) {
 			specFail("binding: %s has no free variable %d", name.V, i)
 		}
